@@ -98,7 +98,12 @@ class ProxyRelay(Relay):
         for k in kinds:
             vals.append(None if k == 'ok' else (TransientRelayError('t', Reply('451', '4.0.0 later')) if k == 'temp'
                                                 else PermanentRelayError('p', Reply('550', '5.0.0 no'))))
-        return vals if shape == 'seq' else dict(zip(rc, vals))
+        if shape == 'map':
+            # a mapping holds one verdict per distinct address: with a repeated recipient the later one is what the relay reports
+            ret = dict(zip(rc, vals))
+            self.log[-1] = ('relay', rc, shape, ['ok' if ret[r] is None else 'fail' for r in rc])
+            return ret
+        return vals
 
 
 def build_queue(case, log, gates):
@@ -111,7 +116,8 @@ def build_queue(case, log, gates):
 
 
 def rcpt_addr(i, case):
-    return 'r%d@d%d.example' % (i, i if case.get('domains', 'many') == 'many' else i % 2)
+    d = case.get('domains', 'many')
+    return 'r%d@d%d.example' % (i, i if d == 'many' else (i // 2 if d == 'pairs' else i % 2))
 
 
 def run_case(case):
@@ -121,6 +127,8 @@ def run_case(case):
     queue = build_queue(case, log, gates)
     n = case['nrcpt']
     rcpts = [rcpt_addr(i, case) for i in range(n)]
+    for i, j in case.get('dups', []):
+        rcpts[i] = rcpts[j]              # the same address given in two RCPT commands
     rejected = set(case.get('rejected', []))
     accepted = [r for i, r in enumerate(rcpts) if i not in rejected]
     body = b'Subject: t\r\n\r\nbody\r\n'
@@ -290,18 +298,36 @@ def table():
                                   (['domsplit'], 'two')):
             for n in range(1, 6):
                 nenv = n if 'split' in policies else (1 if not policies else (n if domains == 'many' else min(n, 2)))
+                yield {'edge': edge, 'queue': 'queue', 'policies': policies, 'domains': domains, 'nrcpt': n, 'plan': ['ok'] * nenv,
+                       'release': [0]}
                 for k in range(nenv):
                     for fault in FAULTS[1:]:
                         plan = ['ok'] * nenv
                         plan[k] = fault
                         yield {'edge': edge, 'queue': 'queue', 'policies': policies, 'domains': domains, 'nrcpt': n,
                                'plan': plan, 'release': [0]}
+        # chains of two splitting policies: every product is split again (n envelopes in the end)
+        for policies in (['domsplit', 'split'], ['split', 'domsplit'], ['received', 'domsplit', 'split']):
+            for domains in ('two', 'pairs', 'many'):
+                for n in range(1, 6):
+                    yield {'edge': edge, 'queue': 'queue', 'policies': policies, 'domains': domains, 'nrcpt': n, 'plan': ['ok'] * n,
+                           'release': [0]}
+                    for k in range(n):
+                        for fault in ('qe4', 'exc', 'slow'):
+                            plan = ['ok'] * n
+                            plan[k] = fault
+                            yield {'edge': edge, 'queue': 'queue', 'policies': policies, 'domains': domains, 'nrcpt': n,
+                                   'plan': plan, 'release': [0]}
         for n in range(1, 5):
             for shape in ('none', 'reply', 'raise_t', 'raise_p'):
                 yield {'edge': edge, 'queue': 'proxy', 'nrcpt': n, 'relay': {'shape': shape}, 'plan': []}
             for shape in ('map', 'seq'):
                 for kinds in itertools.product(('ok', 'temp', 'perm'), repeat=n):
                     yield {'edge': edge, 'queue': 'proxy', 'nrcpt': n, 'relay': {'shape': shape, 'per': list(kinds)}, 'plan': []}
+                    if n in (2, 3) and len(set(kinds)) > 1:
+                        for i in range(1, n):
+                            yield {'edge': edge, 'queue': 'proxy', 'nrcpt': n, 'relay': {'shape': shape, 'per': list(kinds)}, 'plan': [],
+                                   'dups': [[i, 0]]}
 
 
 @st.composite
@@ -312,14 +338,18 @@ def random_case(draw):
         return {'edge': edge, 'queue': 'proxy', 'nrcpt': n, 'plan': [],
                 'relay': {'shape': draw(st.sampled_from(['map', 'seq', 'none', 'raise_t'])),
                           'per': draw(st.lists(st.sampled_from(['ok', 'ok', 'temp', 'perm']), min_size=1, max_size=5))},
-                'rejected': draw(st.lists(st.integers(0, n - 1), max_size=2, unique=True)) if n > 1 else []}
+                'rejected': draw(st.lists(st.integers(0, n - 1), max_size=2, unique=True)) if n > 1 else [],
+                'dups': [[draw(st.integers(1, n - 1)), 0]] if n > 1 and draw(st.booleans()) else []}
     policies = draw(st.sampled_from([['split'], ['domsplit'], ['received', 'split'], [], ['split', 'domsplit'], ['domsplit', 'split']]))
     plan = draw(st.lists(st.sampled_from(FAULTS + ['ok', 'ok', 'slow']), min_size=n, max_size=n))
+    if draw(st.integers(0, 2)) == 0:
+        plan = [p if p in ('ok', 'slow') else 'ok' for p in plan]       # custody of everything: the reply must be a success
     rej = draw(st.lists(st.integers(0, n - 1), max_size=2, unique=True)) if n > 1 else []
     if len(rej) >= n:
         rej = rej[:-1]
-    return {'edge': edge, 'queue': 'queue', 'policies': policies, 'domains': draw(st.sampled_from(['many', 'two'])), 'nrcpt': n,
-            'plan': plan, 'rejected': rej, 'release': draw(st.lists(st.integers(0, 4), max_size=6))}
+    return {'edge': edge, 'queue': 'queue', 'policies': policies, 'domains': draw(st.sampled_from(['many', 'two', 'pairs'])), 'nrcpt': n,
+            'plan': plan, 'rejected': rej, 'release': draw(st.lists(st.integers(0, 4), max_size=6)),
+            'dups': [[draw(st.integers(1, n - 1)), 0]] if n > 1 and draw(st.integers(0, 3)) == 0 else []}
 
 
 def run_shard(ctx):
@@ -347,6 +377,8 @@ def replay(case):
     case['plan'] = [p if p in FAULTS else 'ok' for p in case.get('plan', [])]
     case['policies'] = [p for p in case.get('policies', []) if p in ('split', 'domsplit', 'received')]
     case['rejected'] = [int(x) for x in case.get('rejected', []) if int(x) < case['nrcpt']][:case['nrcpt'] - 1]
+    case['dups'] = [[int(d[0]), int(d[1])] for d in case.get('dups', [])
+                    if isinstance(d, list) and len(d) == 2 and 0 <= int(d[1]) < int(d[0]) < case['nrcpt']]
     if case['queue'] == 'proxy':
         r = case.get('relay') or {}
         if r.get('shape') not in ('none', 'reply', 'raise_t', 'raise_p', 'map', 'seq'):
